@@ -246,6 +246,7 @@ class Judge:
                 and _const(I["r"]) is not None:
             len_minus = _const(I["r"])
         # climb
+        site = site.get("at") or site
         child = site
         p = self.par.get(id(site))
         while p is not None:
@@ -362,3 +363,126 @@ class Judge:
                     break
             cur = nxt
         return out
+
+
+# ---------------------------------------------------------------------------
+# P2b: end bound `t + c` of a string slice against the length (relational, constant offset)
+
+def _implies_le(cond, t, o, v):
+    """cond true  =>  t + o <= v.len()"""
+    for c in _conjuncts(cond):
+        if not (isinstance(c, dict) and c.get("k") == "bin"):
+            continue
+        op, l, r = c["op"], c["l"], c["r"]
+        if op in (">", ">="):
+            op = {">": "<", ">=": "<="}[op]
+            l, r = r, l
+        if op not in ("<", "<=") or not _is_len_of(r, v):
+            continue
+        tt, oo = _split_plus(l)
+        if tt != t:
+            continue
+        if (op == "<=" and o <= oo) or (op == "<" and o <= oo + 1):
+            return True
+    return False
+
+
+def _leave_gt(cond, t, o, v):
+    """`if cond { leave }`: afterwards t + o <= v.len()"""
+    for c in _disjuncts(cond):
+        if not (isinstance(c, dict) and c.get("k") == "bin"):
+            continue
+        op, l, r = c["op"], c["l"], c["r"]
+        if op in ("<", "<="):
+            op = {"<": ">", "<=": ">="}[op]
+            l, r = r, l
+        if op not in (">", ">=") or not _is_len_of(r, v):
+            continue
+        tt, oo = _split_plus(l)
+        if tt != t:
+            continue
+        if (op == ">" and o <= oo) or (op == ">=" and o <= oo + 1):
+            return True
+    return False
+
+
+def judge_str_end(judge, site):
+    """verdict for the end bound of a string slice `V[a .. t + c]` (t a local, c a positive constant):
+    'safe' / 'finding' / None (not of that form)"""
+    i = site.get("i")
+    if not (isinstance(i, dict) and i.get("k") == "struct"):
+        return None
+    fs = {f["name"]: f["e"] for f in i.get("fields") or []}
+    if "end" not in fs:
+        return None
+    e = _strip(fs["end"])
+    if _const(e) is not None:
+        return None
+    t, o = _split_plus(e)
+    core = _strip(e)
+    while isinstance(core, dict) and core.get("k") == "bin" and core.get("op") in ("+", "-"):
+        core = _strip(core["l"]) if _const(core["r"]) is not None else (_strip(core["r"]) if _const(core["l"]) is not None else None)
+    if not (isinstance(core, dict) and core.get("k") == "local") or o < 1:
+        return None
+    # a bound that comes out of a search on the text (find / char_indices / len arithmetic) is in range by
+    # construction; the interpreter's position facts judge those
+    for n_ in walk(judge.body["body"]):
+        if n_.get("k") in ("let", "letx") and n_.get("init") is not None:
+            if any(q_.get("k") == "bind" and q_.get("id") == core.get("id") for q_ in _pat_binds(n_.get("pat"))):
+                if any(x_.get("k") == "mcall" and x_.get("m") in ("find", "rfind", "char_indices", "len", "position",
+                                                                   "rposition", "min")
+                       for x_ in walk(n_["init"])):
+                    return None
+        if n_.get("k") == "for" and any(q_.get("id") == core.get("id") for q_ in _pat_binds(n_.get("pat"))):
+            return None
+    vt = expr_text(_strip(site.get("e")))
+    ids = _locals_of(e)
+    site = site.get("at") or site      # a site written as get(range).unwrap() / split_at(k): the call is the place
+    child = site
+    p = judge.par.get(id(site))
+    while p is not None:
+        k = p.get("k")
+        if k == "if" and judge._inside(p.get("then"), child) and _implies_le(p["cond"], t, o, vt) \
+                and not _mutates(judge._before_in(p["then"], site), ids, vt):
+            return "safe"
+        if k == "bin" and p.get("op") == "&&" and judge._inside(p.get("r"), child) and _implies_le(p["l"], t, o, vt):
+            return "safe"
+        if k == "bin" and p.get("op") == "||" and judge._inside(p.get("r"), child) and \
+                _leave_gt(p["l"], t, o, vt) and len(_disjuncts(p["l"])) == 1:
+            return "safe"
+        if k == "while" and judge._inside(p.get("body"), child) and _implies_le(p.get("cond"), t, o, vt) \
+                and not _mutates(judge._before_in(p["body"], site), ids, vt):
+            return "safe"
+        if k == "block":
+            st = list(p.get("stmts") or []) + ([p["expr"]] if p.get("expr") is not None else [])
+            idx = None
+            for q, x in enumerate(st):
+                if x is child or judge._inside(x, child):
+                    idx = q
+                    break
+            if idx is not None:
+                for q in range(idx - 1, -1, -1):
+                    x = _strip(st[q])
+                    if isinstance(x, dict) and x.get("k") == "if" and x.get("else") is None and _leaves(x["then"]) \
+                            and _leave_gt(x["cond"], t, o, vt):
+                        if not _mutates(st[q + 1:idx] + [judge._before_in(st[idx], site)], ids, vt):
+                            return "safe"
+                        break
+        if k == "closure":
+            break
+        child = p
+        p = judge.par.get(id(p))
+    return "finding"
+
+
+def _pat_binds(p):
+    if not isinstance(p, dict):
+        return
+    if p.get("k") == "bind":
+        yield p
+    for q in p.get("pats") or []:
+        yield from _pat_binds(q)
+    if p.get("pat"):
+        yield from _pat_binds(p["pat"])
+    for f in p.get("fields") or []:
+        yield from _pat_binds(f.get("pat"))
